@@ -43,11 +43,12 @@ func main() { Main("c04", runC04) }
 func runC04(seed uint64, n int, tier string, outDir string) []*Stats {
 	r := NewRng(seed)
 	st := NewStats("c04", seed)
-	cf := NewCoqFile("From V Require Import Common.Base C04.Parts C04.Mark C04.Purity C04.Harness C04.Build C04.HarnessBuild.")
+	cf := NewCoqFile("From V Require Import Common.Base C04.Parts C04.Mark C04.Purity C04.Harness C04.Build C04.Scope C04.HarnessBuild.")
 
 	tieGraphs(r, st, cf, n)
 	tieClassifier(r, st, cf, n)
-	tieParts(r, st, cf, n/2)
+	tieParts(r, st, cf, n/4)
+	tieScope(r, st, cf, n/2)
 	glue(r, st, n)
 
 	st.Finish("seeded generator (splitmix64 from VERIF_SEED): ES module graphs (1-5 modules, named/namespace/default/side-effect imports, re-exports, CommonJS and JSON members, a sideEffects:false directory, @__PURE__/@__NO_SIDE_EFFECTS__/pure:[..] annotations) whose top-level statements hide probe calls in getters, computed keys, spreads, template holes, coercions, class static blocks/fields/computed members/extends, default parameters, destructuring defaults, tagged templates, in/instanceof, optional chains, new, global getters, typeof guards; (A) liveness dump after the real linker vs Mark.v; (B) random js_ast expression/statement/class trees vs Purity.v; (C) api.Build with tree shaking on/off/annotations ignored executed in Node against the native modules. distinct_nontrivial = distinct inputs with at least one removable and one non-removable part (A), distinct trees (B), distinct graphs whose native run logs at least two probes (C)")
